@@ -15,7 +15,9 @@ with the extracted Gallina model (`pool`, `fp`, `fold`, `tri` cases of `run_c14`
 Oracle (code alone, no model): identity, associativity of outcomes, the field-wise laws
 (nothing dropped, list concatenation, set union, nested recursion, refusal exactly on a
 conflict without overwrite permission, later value with it), complete -> partial -> complete,
-`merge(*xs)` = left fold, and operand snapshots before/after for non-mutation.
+`merge(*xs)` = left fold, harvest(sources) = that fold (then completed) and raises on two
+sources providing one atomic place, to_partial/merge_with(ignore_invalid=True) keep exactly the
+valid fields, and operand snapshots before/after for non-mutation.
 """
 from __future__ import annotations
 
@@ -99,7 +101,12 @@ def gen_family(rng, fid: int, base: str) -> Dict[str, Any]:
     # Extra.ignore (plain) / Extra.forbid (harvester arguments) cannot carry instances of
     # subclasses at nested positions
     has_sub = base == "schema" and rng.random() < 0.7
-    if base == "plain":
+    # sets of models: complete instances must be hashable - frozen plain models and frozen
+    # harvester-argument models are; MetadataSchema forbids changing `frozen`, so there a
+    # Set[Schema] field can only ever hold *partial* instances (parsed), and dict()/from_partial/
+    # complete construction raise TypeError: such a field is generated only without a subclass
+    # of the top class (the conversion base -> subclass partial goes through dict())
+    if base in ("plain", "args") or (not has_sub and rng.random() < 0.6):
         top.append({"name": "sm", "kind": "opt", "type": ["setm", "E"]})
     if rng.random() < 0.7:
         top.append({"name": "rec", "kind": "opt", "type": ["obj", "Top"]})
@@ -195,6 +202,7 @@ class Fam:
         self.npos = 0
         self.nneg = 0
         self.rev: Dict[int, str] = {}
+        self.content_of: Dict[int, int] = {}    # set element (class, content) -> content only
         if spec["kind"] == "generated":
             self._build_generated()
         else:
@@ -254,6 +262,8 @@ class Fam:
                     if f["kind"] == "dflt":
                         ns[f["name"]] = self._default_value(f["default"])
             ns["__annotations__"] = ann
+            if self.base == "args" and c["name"] == "E":
+                ns["Config"] = type("Config", (root.Config,), {"frozen": True})
             cls = type(parent)(c["name"], (parent,), ns)
             setattr(mod, c["name"], cls)
             self.cls[c["name"]] = cls
@@ -418,10 +428,48 @@ class Fam:
         return self.atom(v)
 
     def _el(self, x, t):
-        if t[0] in ("listm", "setm"):
+        if t[0] == "listm":
             a = self.abs_obj(x, t[1])
             return self.elem(vlib.sx_dumps(to_sx(a)), self.pretty(a, t[1]))
+        if t[0] == "setm":
+            # Python's set identifies elements by hash and ==: for pydantic models == compares
+            # the field dicts, the hash of a frozen model includes the class - so the identity
+            # of a set element is (class, field values); a complete E(a=1) and a partial
+            # E.PartialModel(a=1) are two elements
+            a = self.abs_obj(x, t[1])
+            sx = vlib.sx_dumps(to_sx(a))
+            n = self.elem(type(x).__name__ + ":" + sx, type(x).__name__ + self.pretty(a, t[1]))
+            self.content_of[n] = self.elem("content:" + sx, self.pretty(a, t[1]))
+            return n
         return self.atom(x)
+
+    def norm_sets(self, p, key):
+        """Set elements reduced to their content (what from_partial makes of them)."""
+        if not (isinstance(p, tuple) and p[0] == "o"):
+            return p
+        out = []
+        for f, x in zip(self.layout(key), p[1]):
+            if x is None:
+                out.append(None)
+            elif f["type"][0] == "setm":
+                out.append(("s", sorted({self.content_of.get(e, e) for e in x[1]})))
+            elif f["type"][0] == "obj":
+                out.append(self.norm_sets(x, f["type"][1]))
+            else:
+                out.append(x)
+        return ("o", out)
+
+    def has_model_set(self, p, key) -> bool:
+        if not (isinstance(p, tuple) and p[0] == "o"):
+            return False
+        for f, x in zip(self.layout(key), p[1]):
+            if x is None:
+                continue
+            if f["type"][0] == "setm" and x[1]:
+                return True
+            if f["type"][0] == "obj" and self.has_model_set(x, f["type"][1]):
+                return True
+        return False
 
     # ---- field type of a position as sx
     def ty_sx(self, key, depth: int):
@@ -479,6 +527,15 @@ def to_sx(p):
     return [tag, [str(x) for x in body]]
 
 
+def from_sx(x):
+    if isinstance(x, str):
+        return int(x)
+    tag, body = x
+    if tag == "o":
+        return ("o", [None if not f else from_sx(f[0]) for f in body])
+    return (tag, [int(e) for e in body])
+
+
 def depth_of(p) -> int:
     if isinstance(p, tuple) and p[0] == "o":
         return 1 + max([depth_of(x) for x in p[1] if x is not None] or [0])
@@ -502,6 +559,8 @@ def gen_content(rng, fam: Fam, key: str, depth: int, complete: bool, flat: bool,
                 return None
             continue
         if not need and rng.random() > p:
+            continue
+        if t[0] == "setm" and getattr(fam, "_skip_setm", False):
             continue
         if t[0] in PRIMS:
             out[f["name"]] = ["a", _prim_value(rng, t[0], empty_ok)]
@@ -705,7 +764,10 @@ def make_recipes(rng, fam: Fam, n: int) -> List[dict]:
             out.append({"way": "merged", "of": [out[i], out[j]], "ow": True})
             continue
         flat = way in ("obj", "json", "yaml", "file", "ignore_invalid", "harvest")
+        # complete MetadataSchema instances are unhashable: no set of models where one would be built
+        fam._skip_setm = fam.base == "schema" and way in ("complete", "construct")
         O = gen_content(rng, fam, fam.top, rng.choice([1, 2, 2, 3]), way == "complete", flat)
+        fam._skip_setm = False
         if O is None:
             continue
         if way == "sub":
@@ -791,6 +853,88 @@ def law_fieldwise(A, B, R, ow, path=()) -> List[Tuple[str, tuple]]:
         else:
             bad.append(("operands of different shape at one field", p))
     return bad
+
+
+def gen_spoils(rng, fam: Fam, O) -> List[List[str]]:
+    """Which fields of the raw data get a value of the wrong shape: [field] or [field, inner field]."""
+    out = []
+    fields = fam.own[O["cls"] or fam.top]
+    for f in rng.sample(fields, min(len(fields), rng.choice([1, 1, 2, 3]))):
+        t = f["type"]
+        if t[0] == "obj" and f["name"] in O["f"] and rng.random() < 0.6:
+            inner = fam.own[O["f"][f["name"]][1]["cls"] or t[1]]
+            out.append([f["name"], rng.choice(inner)["name"]])
+        else:
+            out.append([f["name"]])
+    return out
+
+
+def apply_spoils(fam: Fam, O, spoils):
+    """-> (raw dict for the library, abstract raw value) ; None if the content is not parseable."""
+    P = fam.partial(fam.top)
+    raw = plain(fam, O, False)
+    valid = fam.abs_obj(P.parse_obj(plain(fam, O, False)), fam.top)
+    absr = [x for x in valid[1]]
+    lay = fam.layout(fam.top)
+    pos = {f["name"]: i for i, f in enumerate(lay)}
+
+    def bad(t):
+        if t[0] in ("list", "set", "listm", "setm", "obj"):
+            return 5, fam.atom(5)
+        return ["zz"], ("l", [fam.atom("zz")])
+
+    for sp in spoils:
+        f = lay[pos[sp[0]]]
+        if len(sp) == 1 or not isinstance(raw.get(sp[0]), dict) or absr[pos[sp[0]]] is None:
+            raw[sp[0]], absr[pos[sp[0]]] = bad(f["type"])
+        else:
+            ilay = fam.layout(f["type"][1])
+            ipos = {g["name"]: i for i, g in enumerate(ilay)}
+            pv, av = bad(ilay[ipos[sp[1]]]["type"])
+            raw[sp[0]] = dict(raw[sp[0]])
+            raw[sp[0]][sp[1]] = pv
+            inner = list(absr[pos[sp[0]]][1])
+            inner[ipos[sp[1]]] = av
+            absr[pos[sp[0]]] = ("o", inner)
+    spoiled = sorted({pos[sp[0]] for sp in spoils})
+    return raw, ("o", absr), valid, spoiled
+
+
+def eval_ignore_invalid(fam: Fam, O, spoils, a, ow):
+    """to_partial(raw, ignore_invalid=True) and a.merge_with(raw, ignore_invalid=True) on the code,
+    with the two laws evaluated on the code alone."""
+    try:
+        raw, raw_p, valid, spoiled = apply_spoils(fam, O, spoils)
+    except Exception:  # noqa: BLE001
+        return None
+    P = fam.partial(fam.top)
+    problems = []
+    try:
+        x = P.to_partial(raw, ignore_invalid=True)
+        cast_o = fam.abs_obj(x, fam.top)
+    except Exception as e:  # noqa: BLE001
+        x, cast_o = None, "X"
+        problems.append(("to_partial(ignore_invalid=True) keeps exactly the valid fields", f"{type(e).__name__}: {e}"[:300]))
+    exp = ("o", [None if i in spoiled else v for i, v in enumerate(valid[1])])
+    if x is not None and cast_o != exp:
+        problems.append(("to_partial(ignore_invalid=True) keeps exactly the valid fields",
+                         f"raw {raw!r}: got {fam.pretty(cast_o)}, expected {fam.pretty(exp)}"[:400]))
+    from pydantic import ValidationError
+    try:
+        merged_o = fam.abs_obj(a.merge_with(raw, ignore_invalid=True, allow_overwrite=ow), fam.top)
+    except ValidationError as e:
+        merged_o = "X"
+    except ValueError:
+        merged_o = "R"
+    except Exception as e:  # noqa: BLE001
+        merged_o = "X"
+    if x is not None:
+        st, v = do_merge(a, x, ow)
+        ref_o = fam.abs_obj(v, fam.top) if st == "ok" else ("R" if st == "ref" else "X")
+        if merged_o != ref_o or merged_o == "X":
+            problems.append(("merge_with(raw, ignore_invalid=True) equals merging the valid fields of raw",
+                             f"raw {raw!r}: {fam.pretty(merged_o)} vs {fam.pretty(ref_o)}"[:400]))
+    return raw_p, cast_o, merged_o, problems
 
 
 def roundtrip_problem(fam: Fam, c) -> Optional[str]:
@@ -948,51 +1092,85 @@ class FamilyRun:
             if msg:
                 self.fail("complete -> partial -> complete gives the same object", [i], None, msg)
         # ---- merge(*xs) is the left fold (as harvest uses it)
-        folds = []
-        for _ in range(min(8, n)):
+        def code_fold(idx, ow):
+            cur = self.E
+            for i in idx:
+                st, cur = do_merge(cur, pool[i], ow)
+                if st != "ok":
+                    return ("R" if st == "ref" else "X"), None
+            return fam.abs_obj(cur, fam.top), cur
+
+        folds = []      # (model case kind, flag, idx, outcome)
+        for t_ in range(min(8, n)):
             idx = [self.rng.randrange(n) for _ in range(self.rng.randint(0, 4))]
+            ow = t_ % 3 == 2
             try:
-                m = P.merge(*[pool[i] for i in idx])
+                m = P.merge(*[pool[i] for i in idx], allow_overwrite=ow)
                 o = fam.abs_obj(m, fam.top)
             except ValueError:
                 o = "R"
             except Exception as e:  # noqa: BLE001
                 o = "X"
-                self.fail("merging valid partials raises only the ValueError of a refused overwrite", idx, False,
+                self.fail("merging valid partials raises only the ValueError of a refused overwrite", idx, ow,
                           f"merge(*xs): {type(e).__name__}: {e}")
-            exp, cur = None, self.E
-            for i in idx:
-                st, cur = do_merge(cur, pool[i], False)
-                if st != "ok":
-                    exp = "R" if st == "ref" else "X"
-                    break
-            if exp is None:
-                exp = fam.abs_obj(cur, fam.top)
+            exp, _ = code_fold(idx, ow)
             if o != exp:
-                self.fail("merge(*xs) equals folding merge_with from the empty partial", idx, False,
-                          f"{o if isinstance(o, str) else to_sx(o)} vs {exp if isinstance(exp, str) else to_sx(exp)}")
-            folds.append((idx, o))
+                self.fail("merge(*xs) equals folding merge_with from the empty partial", idx, ow,
+                          f"{fam.pretty(o)} vs {fam.pretty(exp)}")
+            folds.append(("star", ow, idx, o))
         # ---- harvest(): harvester outputs and metadata files folded by the library's pipeline
         n_harvest = 0
         if fam.base == "schema":
             flat_idx = [i for i, w in enumerate(self.ways) if w in ("obj", "json", "yaml", "file", "harvest")]
-            for _ in range(4 if flat_idx else 0):
+            for t_ in range(6 if flat_idx else 0):
                 idx = [self.rng.choice(flat_idx) for _ in range(self.rng.randint(0, 3))]
-                o = self.harvest_outcome(idx, tmpdir)
+                # completing needs hashable set elements: partial only where sets of models occur
+                rp = t_ % 2 == 0 or any(fam.has_model_set(A[i], fam.top) for i in idx)
+                o = self.harvest_outcome(idx, tmpdir, rp)
                 n_harvest += 1
-                exp, cur = None, self.E
-                for i in idx:
-                    st, cur = do_merge(cur, pool[i], False)
-                    if st != "ok":
-                        exp = "R" if st == "ref" else "X"
-                        break
-                if exp is None:
-                    exp = fam.abs_obj(cur, fam.top)
+                exp, cur = code_fold(idx, False)
+                if not rp and cur is not None:
+                    try:
+                        exp = fam.abs_obj(cur.from_partial(), fam.top)
+                    except ValueError:
+                        exp = "R"
+                    except Exception as e:  # noqa: BLE001
+                        exp = "X:" + type(e).__name__
                 if o != exp:
-                    self.fail("harvest(sources) equals folding the harvested partials from the empty partial", idx, False,
+                    self.fail("harvest(sources) equals folding the harvested partials from the empty partial"
+                              + ("" if rp else ", then completing"), idx, False,
                               f"{fam.pretty(o)} vs {fam.pretty(exp)}")
-                folds.append((idx, o))
+                conflict = any(has_conflict(A[i], A[j]) for a_, i in enumerate(idx) for j in idx[a_ + 1:])
+                if conflict and o != "R":
+                    self.fail("harvest raises when two sources provide a value for the same atomic place", idx, False,
+                              fam.pretty(o))
+                folds.append(("harvest", rp, idx, o))
         self.stats["harvest_pipelines"] = n_harvest
+        # ---- ignore_invalid: raw data with invalid fields
+        iis = []
+        n_nested = 0
+        if self.spec["kind"] == "generated":
+            flat_idx = [i for i, w in enumerate(self.ways) if w in ("obj", "json", "yaml", "file", "ignore_invalid", "harvest")]
+            for t_ in range(8 if flat_idx else 0):
+                i = self.rng.choice(flat_idx)
+                O = self.recipes[i]["content"]
+                spoils = gen_spoils(self.rng, fam, O)
+                a_i = self.rng.randrange(n)
+                ow = t_ % 2 == 1
+                r = eval_ignore_invalid(fam, O, spoils, pool[a_i], ow)
+                if r is None:
+                    continue
+                raw_p, cast_o, merged_o, problems = r
+                n_nested += any(len(sp) == 2 for sp in spoils)
+                for law, detail in problems:
+                    before = len(self.fails)
+                    self.fail(law, [i, a_i], ow, detail)
+                    if len(self.fails) > before:
+                        self.fails[-1]["spoil"] = spoils
+                iis.append((ow, a_i, raw_p, cast_o, merged_o))
+        self.stats["ignore_invalid_cases"] = len(iis)
+        self.stats["ignore_invalid_nested"] = n_nested
+        self.stats["items_with_model_sets"] = sum(1 for a in A if fam.has_model_set(a, fam.top))
         # ---- from_partial outcome of pool items
         fps = []
         for i, x in enumerate(pool):
@@ -1001,17 +1179,19 @@ class FamilyRun:
             if self.ways[i] == "merged" or any(
                     not k.startswith("_") and k not in type(x).__fields__ for k in x.__dict__):
                 continue
+            if fam.base == "schema" and fam.has_model_set(A[i], fam.top):
+                continue    # completing would need hashable MetadataSchema instances (TypeError)
             try:
-                fps.append((i, fam.abs_obj(x.from_partial(), fam.top)))
+                fps.append((i, fam.norm_sets(fam.abs_obj(x.from_partial(), fam.top), fam.top)))
             except ValueError:
                 fps.append((i, "R"))
             except Exception as e:  # noqa: BLE001
                 fps.append((i, "X"))
         self.stats.update(merges=n_merge, pool=n, triples=2 * n ** 3, refused_triples=n_ref, ok_triples=n_ok,
                           roundtrips=n_rt, ways=_hist(self.ways))
-        self.model_compare(out, tri, folds, fps)
+        self.model_compare(out, tri, folds, fps, iis)
 
-    def harvest_outcome(self, idx, tmpdir):
+    def harvest_outcome(self, idx, tmpdir, rp=True):
         """harvest(schema, sources, return_partial=True) with the contents of pool items idx as
         alternating harvester instances and metadata files."""
         import os
@@ -1033,23 +1213,24 @@ class FamilyRun:
                     yaml.safe_dump(plain(fam, O, True), fh)
                 sources.append(Path(path))
         try:
-            return fam.abs_obj(harvest(fam.cls[fam.top], sources, return_partial=True), fam.top)
+            return fam.abs_obj(harvest(fam.cls[fam.top], sources, return_partial=rp), fam.top)
         except ValidationError:
-            return "X"
+            return "X" if rp else "R"      # completing an incomplete result is refused by validation
         except ValueError:
             return "R"
         except Exception as e:  # noqa: BLE001
             return "X:" + type(e).__name__
 
     # ---- model vs code
-    def model_compare(self, out, tri, folds, fps):
+    def model_compare(self, out, tri, folds, fps, iis=()):
         fam, A, n = self.fam, self.A, len(self.A)
         depth = max([depth_of(a) for a in A] + [1]) + 1
         ty = fam.ty_sx(fam.top, depth)
         vs = [to_sx(a) for a in A]
         cases = [["pool", ow, ty, vs] for ow in (False, True)]
         cases += [["fp", ty, vs[i]] for i, _ in fps]
-        cases += [["fold", False, ty, [vs[i] for i in idx]] for idx, _ in folds]
+        cases += [[kind, flag, ty, [vs[i] for i in idx]] for kind, flag, idx, _ in folds]
+        cases += [["ii", ow, ty, vs[a_i], to_sx(raw_p)] for ow, a_i, raw_p, _, _ in iis]
         # a few small triples in the `tri` form for the in-Coq cross-check
         small = sorted(range(n), key=lambda i: len(vlib.sx_dumps(vs[i])))[:4]
         tris = [(ow, i, j, k) for ow in (False, True) for i in small[:3] for j in small[1:4] for k in small[:2]][:10]
@@ -1084,15 +1265,22 @@ class FamilyRun:
         self.stats["pairs_matching_pinned_rule_only"] = pinned_like
         base = 2
         for (i, o), m in zip(fps, mres[base:base + len(fps)]):
-            if m[0] != enc(o):
-                dis("from_partial outcome/content", [i], None, m[0], enc(o))
+            mo = [to_sx(fam.norm_sets(from_sx(m[0][0]), fam.top))] if m[0] else []
+            if mo != enc(o):
+                dis("from_partial outcome/content", [i], None, mo, enc(o))
             if (m[1] == "T") != (self.comp[i] is not None) and self.comp[i] is not None:
                 dis("to_partial(complete) is complete in the model", [i], None, m[1], "T")
         base += len(fps)
-        for (idx, o), m in zip(folds, mres[base:base + len(folds)]):
+        for (kind, flag, idx, o), m in zip(folds, mres[base:base + len(folds)]):
             if m != enc(o):
-                dis("merge(*xs) fold", idx, False, m, enc(o))
+                dis("merge(*xs) as computed" if kind == "star" else "harvest pipeline", idx, flag, m, enc(o))
         base += len(folds)
+        for (ow, a_i, raw_p, cast_o, merged_o), m in zip(iis, mres[base:base + len(iis)]):
+            if m[0] != enc(cast_o):
+                dis("to_partial(ignore_invalid=True)", [a_i], ow, m[0], enc(cast_o))
+            if m[1] != enc(merged_o):
+                dis("merge_with(ignore_invalid=True)", [a_i], ow, m[1], enc(merged_o))
+        base += len(iis)
         self.xc_cases = cases[base:]
         self.xc_results = mres[base:]
         self.sample = {"case": cases[-1] if tris else cases[0][:3], "model": mres[-1] if tris else "..."}
@@ -1115,7 +1303,9 @@ def family_worker(arg):
                 fr.run(str(d))
         # attach recipes to failures so that they can be replayed without the pool
         for f in fr.fails:
-            f["recipes"] = [fr.recipes[i] for i in f["items"]]
+            f["recipes"] = [copy.deepcopy(fr.recipes[i]) for i in f["items"]]
+            if "spoil" in f:
+                f["recipes"][0]["spoil"] = f.pop("spoil")
         for f in fr.disagree:
             f["recipes"] = [fr.recipes[i] for i in f["items"] if isinstance(i, int) and i < len(fr.recipes)]
         return {"ok": True, "id": spec["id"], "fails": fr.fails, "disagree": fr.disagree, "stats": fr.stats,
@@ -1181,28 +1371,43 @@ def eval_law(spec, law: str, recipes: List[dict], ow) -> Optional[str]:
                     do_merge(y, x, o)
         if [snap(x) for x in xs] != snaps:
             msg = "operand changed"
-    elif "harvest(sources)" in law:
+    elif "ignore_invalid" in law:
+        r = eval_ignore_invalid(fam, recipes[0]["content"], recipes[0].get("spoil") or [], xs[1], bool(ow))
+        if r is not None:
+            for l2, detail in r[3]:
+                if l2 == law:
+                    msg = detail
+    elif "harvest(sources)" in law or "harvest raises" in law:
+        rp = "completing" not in law
         fr = FamilyRun.__new__(FamilyRun)
         fr.fam, fr.recipes = fam, recipes
         with vlib.workdir("c14h") as d:
-            o = fr.harvest_outcome(list(range(len(recipes))), str(d))
+            o = fr.harvest_outcome(list(range(len(recipes))), str(d), rp)
         cur, exp = E, None
         for x in xs:
             st, cur = do_merge(cur, x, False)
             if st != "ok":
                 exp = "R"
                 break
+        if exp is None and not rp:
+            try:
+                exp = fam.abs_obj(cur.from_partial(), top)
+            except ValueError:
+                exp = "R"
         exp = exp or fam.abs_obj(cur, top)
-        if o != exp:
+        if "harvest raises" in law:
+            if o != "R" and any(has_conflict(A[i], A[j]) for i in range(len(A)) for j in range(i + 1, len(A))):
+                msg = f"harvest(sources) = {show(o)} although two sources conflict"
+        elif o != exp:
             msg = f"harvest(sources) = {show(o)}, fold = {show(exp)}"
     elif "merge(*xs)" in law:
         try:
-            o = fam.abs_obj(P.merge(*xs), top)
+            o = fam.abs_obj(P.merge(*xs, allow_overwrite=bool(ow)), top)
         except ValueError:
             o = "R"
         cur, exp = E, None
         for x in xs:
-            st, cur = do_merge(cur, x, False)
+            st, cur = do_merge(cur, x, bool(ow))
             if st != "ok":
                 exp = "R"
                 break
@@ -1303,8 +1508,14 @@ def run(ctx: vlib.Ctx):
         "iteration order of __dict__), Python list + and set.union, isinstance/issubclass on the generated partial classes",
         "abstraction harness/props/c14.py: a partial instance is read through __dict__ positionally over the field list of the "
         "most derived class of the inheritance chain at that position; primitive values interned by (type, repr) "
-        "(falsy to numbers <= 0); elements of lists/sets of models interned by their abstract content (class not "
-        "compared); the class of a merge result ('instance of the left type') is not compared",
+        "(falsy to numbers <= 0); elements of lists of models interned by their abstract content (class not compared), "
+        "elements of sets of models by (class, content) - the identity Python's set gives pydantic models (== on field "
+        "dicts, hash of a frozen model includes the class) - and reduced to content where from_partial completes them; "
+        "the class of a merge result ('instance of the left type') is not compared",
+        "harvest(): the sources' outputs are taken to be the partials obtained from the same contents by parsing (the "
+        "harvester classes used are generated: run() returns self.schema(**payload); files are YAML written by the harness); "
+        "ignore_invalid: invalid raw values are shape clashes only (a list where an atom is expected, an atom where a "
+        "collection or object is expected), abstracted by overlaying the parsed valid part",
         "to_partial is modelled as the identity on field values (construct(**obj.__dict__)); from_partial as validation against "
         "required/optional/defaulted field kinds only (no other validators)",
     ]
@@ -1346,6 +1557,11 @@ def run(ctx: vlib.Ctx):
         dist["ok_triples"] += st["ok_triples"]
         dist["roundtrips"] += st["roundtrips"]
         dist["harvest_pipelines"] += st.get("harvest_pipelines", 0)
+        for k_ in ("ignore_invalid_cases", "ignore_invalid_nested"):
+            dist[k_] = dist.get(k_, 0) + st.get(k_, 0)
+        if st.get("items_with_model_sets"):
+            dist.setdefault("items_with_model_sets", {})
+            dist["items_with_model_sets"][spec["base"]] = dist["items_with_model_sets"].get(spec["base"], 0) + st["items_with_model_sets"]
         dist["falsy_atoms"] += st["falsy_atoms"]
         dist["max_depth"] = max(dist["max_depth"], st["depth"])
         dist["unrealised"] += len(st.get("unrealised", []))
@@ -1399,7 +1615,11 @@ def run(ctx: vlib.Ctx):
     ctx.assumptions += [
         "operands at one nested position belong to one inheritance chain (premise has_ty of C14_assoc/C14_closed); "
         "unrelated sibling classes in a Union are excluded by the property",
-        "set elements are compared by content; sets of models only where no conversion through dict() is needed",
+        "sets of models: complete instances only on bases whose models are hashable (frozen plain pydantic models, frozen "
+        "harvester-argument models); under MetadataSchema (`frozen` may not be changed) a Set[Schema] field holds partial "
+        "instances only and is neither completed nor converted through dict() (both raise TypeError: unhashable)",
+        "harvest() accumulates without overwrite permission (C14_harvest_conflict_raises); its docstring promises the "
+        "opposite - recorded as an observation, the theorem describes the code",
         "field values are well typed for their field (values come from the library's own parsers or are type-correct "
         "arguments of construct())",
     ]
